@@ -83,8 +83,11 @@ let () =
          bump (Printf.sprintf "status_%d" (int_of_n o.status));
          if int_of_n o.status >= 200 && int_of_n o.status < 300 && not (aft = sb) then ();
          note_nontrivial (show (L [tree; req]));
-         let agree = model_agrees root sb r o aft in
-         let spec = spec_ok root sb r o aft in
+         let agree, spec = match mode with
+           | "c02" -> agrees_c02 root sb r o aft, spec_c02 sb o aft
+           | "c03" -> agrees_c03 root sb r o aft, spec_c03 root sb r o aft
+           | "c17" -> agrees_c17 root sb r o, spec_c17 o
+           | _ -> model_agrees root sb r o aft, spec_ok root sb r o aft in
          let (sb', resp) = serve root sb r in
          verdict ~agree ~spec ~kf:"-" ~detail:(Printf.sprintf "model: %s after=%s" (show_resp resp) (show_node sb')))
     | _ -> raise (Parse_error "line"))
